@@ -19,3 +19,4 @@ pub mod verif_update;
 pub mod verif_c12;
 #[cfg(feature = "verif-hooks")]
 pub mod verif_filter;
+pub mod verif_stream;
